@@ -363,7 +363,7 @@ func (d *driver) recv() json.RawMessage {
 }
 
 func (d *driver) ttl() int {
-	return []int{0, 1, 2, 3, 5}[d.r.Intn(5)]
+	return []int{0, 1, 2, 3, 5, 20, 1000, 60000}[d.r.Intn(8)]
 }
 
 func (d *driver) gen() *t_api.Request {
